@@ -342,6 +342,29 @@ func c13Keywords(c *Ctx) {
 		if cn, ok := nodeV.(*ssa.Const); ok && cn.IsNil() {
 			isNil = true
 		}
+		// `return invalid(detail)`: a helper or closure every return of which rejects with an error
+		if ex, ok := nodeV.(*ssa.Extract); ok && ex.Index == 0 {
+			if call, ok := ex.Tuple.(*ssa.Call); ok {
+				if k := staticCallee(&call.Call); k != nil && inModule(k) && len(k.Blocks) > 0 {
+					all, any := true, false
+					for _, kb := range k.Blocks {
+						kr, ok := kb.Instrs[len(kb.Instrs)-1].(*ssa.Return)
+						if !ok || len(kr.Results) != 2 {
+							continue
+						}
+						any = true
+						cn, isC := kr.Results[0].(*ssa.Const)
+						if !isC || !cn.IsNil() || !isErrorReturn(kr) {
+							all = false
+						}
+					}
+					if all && any {
+						c.OK("keywords", "json.parseKeyword:reject", r.Pos(), "rejected with an error (through "+FuncName(k)+")")
+						continue
+					}
+				}
+			}
+		}
 		if isNil {
 			c.Check(isErrorReturn(r), "keywords", "json.parseKeyword:reject", r.Pos(), "rejected with an error", "a keyword is rejected (nil node) without an error diagnostic")
 			continue
